@@ -51,7 +51,8 @@ async def one(cfg):
         return MW()
     class Plain(TaskiqMiddleware): pass
     b = InMemoryBroker().with_result_backend(RB())
-    b.add_middlewares(mk_mw(0, False), Plain(), mk_mw(2, True))
+    if cfg['ack_async']: b = b.with_middlewares(mk_mw(0, False), Plain(), mk_mw(2, True))          # both registration helpers are exercised
+    else: b.add_middlewares(mk_mw(0, False), Plain(), mk_mw(2, True))
     def dep_gen(ctx: Context = TaskiqDepends()):
         ev.append(('dep_open', ctx.message.task_id))
         try: yield ctx.message.task_id
@@ -82,11 +83,20 @@ async def one(cfg):
         def t(x, d=TaskiqDepends(dep_gen), c=TaskiqDepends(dep_cm)): return body(x, d)
     b.register_task(t, task_name='t')
     labels = {'lbl': 7}
+    partial_types = cfg['outcome'] == 'return' and cfg['async_target'] and not cfg.get('hook_fails')          # one label stamped without a type tag (what a client-side pre_send middleware does after the kicker computed labels_types)
+    if partial_types: labels = {'lbl': '7', 'stamp': 'trace-1'}
     if outcome == 'timeout': labels['timeout'] = 0.05
     if outcome == 'timeout0': labels['timeout'] = 0
-    msg = TaskiqMessage(task_id='id-1', task_name='t', labels=labels, labels_types={'timeout': 2} if outcome == 'timeout0' else None, args=[41], kwargs={})
+    msg = TaskiqMessage(task_id='id-1', task_name='t', labels=labels, labels_types={'timeout': 2} if outcome == 'timeout0' else ({'lbl': 2} if partial_types else None), args=[41], kwargs={})
     data = b.formatter.dumps(msg).message
-    if cfg['ack_async']:
+    if cfg['ack_async'] == 'awaitable-object':          # an ack callable that returns an awaitable which is NOT a coroutine object (AckableMessage.ack: Callable[[], Union[None, Awaitable[None]]])
+        class _AckAwaitable:
+            def __await__(self):
+                ev.append(('ack',))
+                return
+                yield
+        def ack(): return _AckAwaitable()
+    elif cfg['ack_async']:
         async def ack(): ev.append(('ack',))
     else:
         def ack(): ev.append(('ack',))
@@ -99,6 +109,11 @@ async def one(cfg):
     return ev, raised
 
 
+import dataclasses as _dc
+@_dc.dataclass
+class PostponedModel:
+    v: int
+
 async def late_registration(validate=True):
     from taskiq import InMemoryBroker, TaskiqDepends, Context
     from taskiq.receiver import Receiver
@@ -106,12 +121,31 @@ async def late_registration(validate=True):
     from taskiq.abc.broker import AsyncBroker
     AsyncBroker.global_task_registry = {}
     b = InMemoryBroker(); r = Receiver(b, max_async_tasks=2, run_startup=False, validate_params=validate); seen = []
-    async def t(x: int, ctx: Context = TaskiqDepends()): seen.append((x, ctx.message.task_id, True))
+    async def t(x: int, ctx: Context = TaskiqDepends(), m: 'Optional[PostponedModel]' = None):          # the last annotation is a STRING (postponed evaluation, PEP 563 style)
+        seen.append((x, ctx.message.task_id, True) if (m is None or isinstance(m, PostponedModel) or not validate) else (x, ctx.message.task_id, 'string annotation not resolved: m arrived as ' + type(m).__name__))
+    t.__globals__.setdefault('Optional', __import__('typing').Optional)
     b.register_task(t, task_name='late')
     for i in range(2):
-        try: await r.callback(b.formatter.dumps(TaskiqMessage(task_id=f'id-{i}', task_name='late', labels={}, labels_types=None, args=['41'], kwargs={})).message)
+        try: await r.callback(b.formatter.dumps(TaskiqMessage(task_id=f'id-{i}', task_name='late', labels={}, labels_types=None, args=['41'], kwargs={'m': {'v': 1}})).message)
         except BaseException as e: seen.append((type(e).__name__, f'id-{i}', False))
     return seen
+
+async def inmemory_failing_backend():
+    from taskiq import InMemoryBroker
+    from taskiq.abc.result_backend import AsyncResultBackend
+    from taskiq.abc.broker import AsyncBroker
+    AsyncBroker.global_task_registry = {}
+    class Down(AsyncResultBackend):
+        async def set_result(self, task_id, result): raise ConnectionError("result backend is down")
+        async def is_result_ready(self, task_id): return False
+        async def get_result(self, task_id, with_logs=False): raise KeyError(task_id)
+    b = InMemoryBroker(await_inplace=True).with_result_backend(Down()); out = []; ran = []
+    async def t(i): ran.append(f"ran:{i}")
+    task = b.register_task(t, task_name='t')
+    for i in (1, 2):
+        try: await task.kiq(i); out.append('sent')
+        except BaseException as e: out.append(f"send raised {type(e).__name__}")
+    return out + ran
 
 async def isolation(shape):
     """C06: two overlapping executions of one task; every dependency (cached, un-cached, nested, sync/async/generator, resolved before or
@@ -256,7 +290,7 @@ def run(sc):
     ackables = [sc['ackable']] if isinstance(sc.get('ackable'), bool) else [True, False]
     for ack_time in acks:
         for ackable in ackables:
-            for ack_async in ([sc['ack_async']] if isinstance(sc.get('ack_async'), bool) else [False, True]):
+            for ack_async in ([sc['ack_async']] if isinstance(sc.get('ack_async'), bool) else [False, True, 'awaitable-object']):
                 for outcome in ('return', 'raise', 'base', 'noresult', 'timeout', 'timeout0'):
                     for backend_fails in (False, True):
                         for async_target in (True, False):
@@ -284,6 +318,10 @@ def run(sc):
     if got != [('41', 'id-0', True), ('41', 'id-1', True)]:
         fails.append({'key': 'validate_params=False', 'config': {'validate_params': False, 'sent_args': ['41'], 'annotation': 'int'},
                       'failed_clauses': [f"C08: with parameter parsing disabled (Receiver(validate_params=False)) the argument '41' must arrive as sent; per delivery the task received {got}"], 'trace': [str(got)]})
+    got = asyncio.run(inmemory_failing_backend()); n += 1
+    if got != ['sent', 'sent', 'ran:1', 'ran:2']:
+        fails.append({'key': 'inmemory-failing-backend', 'config': {'broker': 'InMemoryBroker(await_inplace=True)', 'result backend': 'set_result raises'},
+                      'failed_clauses': [f"C07: with an InMemoryBroker whose result backend fails, sending two messages gave {got}; the failure must stay contained (both sends succeed, both tasks run)"], 'trace': [str(got)]})
     for shape in ('uncached', 'cached', 'async_uncached', 'generator_uncached', 'nested_uncached', 'override', 'ctx_only_nested'):
         bad, seen = asyncio.run(isolation(shape)); n += 1
         if bad or len(seen) != 2: fails.append({'key': 'isolation:' + shape, 'config': {'overlapping_messages': ['A', 'B'], 'dependency': shape},
